@@ -35,6 +35,8 @@ func NewSession(c *Client, state SMState) (*Session, error) {
 		s = c.Session
 		// We keep information about the previously set session, like the session ID, but we read server provided
 		// info again in case it changed between session break and resume, such as features.
+		// TLS is negotiated anew on every connection.
+		s.TlsEnabled = false
 		s.init()
 	}
 
